@@ -33,6 +33,19 @@ static inline IT* std_Rb_tree_iterator_std_pair_ki32_i32_op_assign__xstd_Rb_tree
 static inline _Bool m_std_operator_op_ne__rkstd_Rb_tree_iterator_std_pair_ki32_i32_rkstd_Rb_tree_iterator_std_pair_ki32_i32(const IT* a, const IT* b) { return a->at != b->at; }
 static inline _Bool m_std_operator_op_eq__rkstd_Rb_tree_iterator_std_pair_ki32_i32_rkstd_Rb_tree_iterator_std_pair_ki32_i32(const IT* a, const IT* b) { return a->at == b->at; }
 static inline std_pair_ki32_i32* std_Rb_tree_iterator_std_pair_ki32_i32_op_arrow___k(const IT* i) { __CPROVER_assert(i->at != IT_END, "MODEL: a map iterator is dereferenced only when it is not end()"); return i->at == IT_W ? &g_slot_w : &g_slot_other; }
+/* std::multimap<int,int>: number of pairs + multiplicity of one arbitrary witness pair (g_mw_k, g_mw_v) */
+typedef struct { int first; int second; } std_pair_ki32_i32;
+typedef struct { unsigned long count, count_w; unsigned clears; } std_multimap_i32_i32_std_less_i32;
+typedef struct { int at; } std_Rb_tree_iterator_std_pair_ki32_i32;
+typedef struct { int at; } std_Rb_tree_const_iterator_std_pair_ki32_i32;
+static int g_mw_k, g_mw_v; static unsigned long g_mm_left, g_mm_loaded, g_mm_seen_w;
+static inline std_pair_ki32_i32 std_pair_ki32_i32_ctor_ki32_i32(void) { std_pair_ki32_i32 p; p.first = 0; p.second = 0; return p; }
+static inline void std_multimap_i32_i32_std_less_i32_clear(std_multimap_i32_i32_std_less_i32* m) { m->count = 0; m->count_w = 0; m->clears++; }
+static inline std_Rb_tree_iterator_std_pair_ki32_i32 std_multimap_i32_i32_std_less_i32_begin(std_multimap_i32_i32_std_less_i32* m) { std_Rb_tree_iterator_std_pair_ki32_i32 i; i.at = 0; return i; }
+static inline std_Rb_tree_const_iterator_std_pair_ki32_i32 std_Rb_tree_const_iterator_std_pair_ki32_i32_ctor__rkstd_Rb_tree_iterator_std_pair_ki32_i32(const std_Rb_tree_iterator_std_pair_ki32_i32* i) { std_Rb_tree_const_iterator_std_pair_ki32_i32 c; c.at = i->at; return c; }
+static inline std_Rb_tree_iterator_std_pair_ki32_i32* std_Rb_tree_iterator_std_pair_ki32_i32_op_assign__xstd_Rb_tree_iterator_std_pair_ki32_i32(std_Rb_tree_iterator_std_pair_ki32_i32* a, std_Rb_tree_iterator_std_pair_ki32_i32* b) { *a = *b; return a; }
+static inline std_Rb_tree_iterator_std_pair_ki32_i32 std_multimap_i32_i32_std_less_i32_emplace_hint_std_pair_ki32_i32__std_Rb_tree_const_iterator_std_pair_ki32_i32_xstd_pair_ki32_i32(std_multimap_i32_i32_std_less_i32* m, std_Rb_tree_const_iterator_std_pair_ki32_i32 hint, std_pair_ki32_i32* p) {
+  (void)hint; m->count++; if (p->first == g_mw_k && p->second == g_mw_v) m->count_w++; std_Rb_tree_iterator_std_pair_ki32_i32 i; i.at = 1; return i; }
 /* std::set<int> for one arbitrary witness value */
 typedef struct { _Bool has_w; unsigned clears; } std_set_i32_std_less_i32_valloc_i32;
 typedef struct { int at; } std_Rb_tree_const_iterator_i32;
@@ -67,6 +80,17 @@ static void havoc_inv(void) { g_map->has_w = nondet_bool(); g_map->inserts_after
 void AbsLoadMapScope_BeginVisit(struct AbsLoadMapScope* s) { __CPROVER_assert(INV, "C18: the map loader establishes the load invariant before the first key (cleared iff Clean mode, nothing inserted yet)"); havoc_inv(); }
 void AbsLoadMapScope_EndStep(struct AbsLoadMapScope* s) { __CPROVER_assert(INV, "C18: loading one more key re-establishes the load invariant (key presence as the mode prescribes, value loaded into its own key's element)"); }
 void AbsLoadMapScope_EndVisit(struct AbsLoadMapScope* s) { havoc_inv(); }
+/* abstract array-of-objects scope for multimaps: g_mm_left items remain; loading a pair delivers it, reports 'not loaded' or raises */
+#define MMF Detail_SerializeMultiMapImpl_AbsLoadPairArrayScope_std_multimap_i32_i32_std_less_i32__rAbsLoadPairArrayScope_rstd_multimap_i32_i32_std_less_i32
+_Bool AbsLoadPairArrayScope_IsEnd___k(const struct AbsLoadPairArrayScope* s) { return g_mm_left == 0; }
+_Bool Serialize_AbsLoadPairArrayScope_std_pair_ki32_i32_0__rAbsLoadPairArrayScope_rstd_pair_ki32_i32(struct AbsLoadPairArrayScope* s, std_pair_ki32_i32* p) {
+  __CPROVER_assert(g_mm_left > 0, "C18: no item is requested from the archive beyond its end"); g_mm_left--;
+  if (nondet_bool()) { __verif_exc = EXC_SerializationException; return 0; } if (nondet_bool()) return 0;
+  p->first = nondet_int(); p->second = nondet_int(); g_mm_loaded++; if (p->first == g_mw_k && p->second == g_mw_v) g_mm_seen_w++; return 1; }
+#define VERIF_LOOP_Detail_SerializeMultiMapImpl_AbsLoadPairArrayScope_std_multimap_i32_i32_std_less_i32__rAbsLoadPairArrayScope_rstd_multimap_i32_i32_std_less_i32_1 \
+  __CPROVER_assigns(hint.at, cont->count, cont->count_w, g_mm_left, g_mm_loaded, g_mm_seen_w, __verif_exc, __verif_exc_code VERIF_TMPS_Detail_SerializeMultiMapImpl_AbsLoadPairArrayScope_std_multimap_i32_i32_std_less_i32__rAbsLoadPairArrayScope_rstd_multimap_i32_i32_std_less_i32) \
+  __CPROVER_loop_invariant(__verif_exc == 0 && cont->count == g_mm_loaded && cont->count_w == g_mm_seen_w && cont->clears == 1 && g_mm_seen_w <= g_mm_loaded && g_mm_left <= ((unsigned long)1 << 50) && g_mm_loaded <= ((unsigned long)1 << 50) - g_mm_left) \
+  __CPROVER_decreases(g_mm_left)
 #include "gen.c"
 void h_load_map(void) { struct AbsLoadMapScope scope; static struct SerializationContext ctx; static struct SerializationOptions opt; ctx.mSerializationOptions = &opt; scope.__base_TArchiveScope.mSerializationContext = &ctx;
   opt.mismatchedTypesPolicy = nondet_bool() ? MismatchedTypesPolicy_ThrowError : MismatchedTypesPolicy_Skip; opt.overflowNumberPolicy = nondet_bool() ? OverflowNumberPolicy_ThrowError : OverflowNumberPolicy_Skip;
@@ -84,7 +108,13 @@ void h_load_set(void) { struct AbsLoadSetScope scope; std_set_i32_std_less_i32_v
   verif_inst_load_set__rAbsLoadSetScope_rstd_set_i32_std_less_i32_valloc_i32(&scope, &m);
   VERIF_ASSERT("C18,C05", __verif_exc != 0 || (m.has_w == g_s_seen_w && m.clears == 1), "after loading a set, an arbitrary value is a member iff the document delivered it: no stale member survives, nothing loaded is lost, and an item that was NOT loaded (null / skipped) contributes no element");
   VERIF_CANARY(); }
+void h_load_multimap(void) { struct AbsLoadPairArrayScope scope; std_multimap_i32_i32_std_less_i32 m; m.count = nondet_ulong(); m.count_w = nondet_ulong(); m.clears = 0; __CPROVER_assume(m.count_w <= m.count);   /* any prior content */
+  g_mw_k = nondet_int(); g_mw_v = nondet_int(); g_mm_left = nondet_ulong(); __CPROVER_assume(g_mm_left <= ((unsigned long)1 << 50)); g_mm_loaded = 0; g_mm_seen_w = 0; __verif_exc = 0; __verif_exc_code = 0;
+  verif_inst_load_multimap__rAbsLoadPairArrayScope_rstd_multimap_i32_i32_std_less_i32(&scope, &m);
+  VERIF_ASSERT("C18,C05", __verif_exc != 0 || (m.clears == 1 && m.count == g_mm_loaded && m.count_w == g_mm_seen_w && g_mm_left == 0), "after loading a multimap it holds exactly the pairs the document delivered, each as often as it was delivered (arbitrary witness pair): no prior pair survives - also for an EMPTY document array -, nothing loaded is lost, an item that was not loaded contributes nothing");
+  VERIF_CANARY(); }
 /*@jobs
 job entry=h_load_map props=C18,C03,C02 mode=direct unwind=3
 job entry=h_load_set props=C18,C05,C02 mode=direct loops=1 unwind=3
+job entry=h_load_multimap props=C18,C05,C02 mode=direct loops=1 unwind=3
 @*/
